@@ -78,7 +78,8 @@ CHECKS = {
         "rule": ("plans of 1-60 ops from the zero value; non-trivial = a MoveBefore/MoveAfter with node and mark adjacent or at opposite ends on a list of length >= 3 after at least one Remove; distinct = distinct plan JSON"),
         "assumptions": ["slice model in c06list is correct", "rapid v1.3.0; go1.26.8"],
         "jobs": [{"pkg": "c06list", "run": "TestListClearWrap", "kinds": ["list-clear-wrap"], "scale_thorough": 4, "shards_thorough": 4},
-                 {"pkg": "c06list", "run": "TestList$|TestListUnderGC", "kinds": ["list", "list-gc"], "scale_thorough": 10, "shards_thorough": 16}],
+                 {"pkg": "c06list", "run": "TestList$|TestListUnderGC", "kinds": ["list", "list-gc"], "scale_thorough": 10, "shards_thorough": 16},
+                 {"pkg": "c06list", "race": True, "run": "TestListValueRace", "kinds": ["list-value-race"], "scale_thorough": 5, "shards_thorough": 4}],
     },
     "C15": {
         "level": "exploration",
@@ -296,7 +297,7 @@ RULE_ADDENDA = {
     "C03": " Key kinds as in C01 (incl. pointer and []byte keys). Kind tree-huge: one tree of 0.5-1.1 million keys (7 and more levels): monotone fill, 0-200000 keys scattered into the gaps, a contiguous block of 0-400000 keys drained; after each phase the structural walk, depth bound, complete ascending iteration and a Contains (with comparison count) for every key (always non-trivial).",
     "C04": " Kind deque-huge-cap (own process): a Deque[byte] with a buffer of 2^31 ... 2^32+5 slots (address space only), 20-200 operations at both ends with the front at the start or at the far end of the buffer, against a slice model. Kind deque-elem-size: the same plans over struct{} elements and over 328-byte elements. Elements are padded pointer-holding structs so that weak pointers to popped elements can be required to clear after a GC; 'bulk_push' steps build backlogs of 1000-5000 items; iterations may be nested; Grow/Shrink arguments go up to MaxInt.",
     "C05": " Kind queue-nan-keys: float64 keys incl. NaN (entries that can be put in and popped but never addressed): Len, Contains, minimality of Pop / Peek (non-trivial = a NaN entry was popped). Kind queue-huge: one queue holding 40000-140000 keys at once, taken down to 1/3-1/64 of its peak by Removes (and Pops), refilled, drained, against a map model (always non-trivial). Priorities are ints or []int (pointer-holding); 'bulk' steps push and pop 1000-5000 items (heap and queue).",
-    "C06": " Kind list-clear-wrap (own process): the generated plan on lists that have been Cleared 2^8, 2^16 and 2^32 (-2 ... +1) times before. Steps also include 'relocate' (the List value is moved to another address), 'bulk' (hundreds of nodes) and reuse of cleared handles; kind list-gc: nodes only reachable through the list survive three GCs with their pointer-holding payload intact.",
+    "C06": " Kind list-value-race (race-detector build): one goroutine moves and removes a node while another updates that node's two-word Value through the handle: no race report, no lost update. Kind list-clear-wrap (own process): the generated plan on lists that have been Cleared 2^8, 2^16 and 2^32 (-2 ... +1) times before. Steps also include 'relocate' (the List value is moved to another address), 'bulk' (hundreds of nodes) and reuse of cleared handles; kind list-gc: nodes only reachable through the list survive three GCs with their pointer-holding payload intact.",
     "C07": " Kind shared-upstream: outer = G(inner), inner = F(src) for F, G in First / Filter / Map / CompactFunc, pulled alternately through outer, inner and src against a model with one shared source position (non-trivial = pulls through at least two of them); one case in 25 instead runs Compact / Filter over a stretch of 1-3 million dropped items with the goroutine stack limited to 64 MB. Inputs include NaN, negative and huge counts, 1025-2600-item inputs for Chunk/Last; callbacks are counted; results must be independent of their inputs (scribbling); argument slices must be left intact; constructors are read with contexts that end before, between and during calls.",
     "C09": " Kind own-real-clock (own process, real clock, no bubble: MapStream, Batch, Merge and MapStream over Batch with zero-latency sources; stop after j outputs or read to the end / error; Close within 10 s; then the ownership log of every source; non-trivial = a fault or an early stop). Kind panic-abandon: a consumer whose callback panics and whose deferred Close runs: still exactly one Close per stream.",
     "C10": " Kind pipe-values: pipes of any / error (incl. the nil interface value and typed nils), nil pointers, nil and empty slices, struct{} and a struct holding a slice and a map: the value received is the value sent (non-trivial = a nil / zero value among at least 2). pipe-storm also runs empty streams (closed while the consumer begins to wait) and consumers that close without reading while the producer sends; blocking calls have a 10 s limit. Close errors include context.Canceled / DeadlineExceeded themselves; kind pipe-gc (a properly closed sender's error survives GCs and finalizers); the package also runs for GOARCH=386.",
